@@ -387,3 +387,29 @@ def _(e, c, a): return mk_unit()
 # ---------------------------------------------------------------- test harness plumbing (conformance suite)
 @model(r'assert_test_result')
 def _(e, c, a): return Ok(mk_unit())
+
+
+# ---------------------------------------------------------------- locks (sequential semantics: uncontended)
+@model(r'(RwLock|Mutex)(<.*>)?::new$|lock_api::(RwLock|Mutex)(<.*>)?::new$')
+def _(e, c, a): return Struct('Lock', [a[0]])
+
+
+@model(r'(RwLock|Mutex)(<.*>)?::(read|write|lock|try_lock|try_read|try_write|upgradable_read)$')
+def _(e, c, a):
+    lk = un(a[0])
+    g = Ref(lk.f[0], 'guard')
+    k = strip_generics(c).rstrip().split('::')[-1]
+    if 'parking_lot' in c or 'lock_api' in c:
+        return Some(g) if k.startswith('try_') else g
+    return Ok(g)      # std locks return LockResult
+
+
+@model(r'(RwLock|Mutex)(<.*>)?::(into_inner|get_mut)$')
+def _(e, c, a):
+    lk = un(a[0]); return lk.f[0].v if 'into_inner' in c else Ref(lk.f[0])
+
+
+@model(r'<.*(Future|Pin<.*>) as Future>::poll$|<.*as IntoFuture>::into_future$')
+def _(e, c, a):
+    if 'into_future' in c: return a[0]
+    return e.poll(a[0])
